@@ -484,6 +484,24 @@ def check_c06(tier, seed, log=print):
     report_tie(run, r, bad_defs, covered=fails)
     from props_lib import stack_check
     sc = stack_check(run, r, tier, seed, log)
+    # the state-machine output must be one loop over a state enum: no per-state functions to call
+    smbin = P.build_capture_sm()
+    if smbin:
+        import subprocess as _sp
+        srcs_acc = [r['srcs'][i] for i in r['accepted']]
+        o = _sp.run([smbin, '--code'], input='\n----\n'.join(srcs_acc) + '\n', capture_output=True, text=True).stdout
+        k = -1
+        nsm = 0
+        for ln in o.split('\n'):
+            if ln.startswith('CASE '):
+                k = int(ln.split(' ')[1])
+            elif ln.startswith('CODETEXT '):
+                code = bytes.fromhex(ln.split(' ')[1]).decode('utf-8', 'replace')
+                nsm += 1
+                if re.search(r'fn\s+state\d+', code) or 'match state' not in code or 'loop {' not in code.replace('loop{', 'loop {'):
+                    run.violation('sm-shape', dict(definition=srcs_acc[k], what='state-machine output defines/calls per-state functions or is not a single loop over the state enum'),
+                                  key='smshape|' + srcs_acc[k])
+        sc['sm_outputs_scanned'] = nsm
     nontriv = {(k[0], k[2]) for k, v in (streams_of(r, 'tail') or {}).items() if v.count(':') >= 2}
     run.coverage.update(dict(evaluations=n, distinct_nontrivial=len(nontriv),
                              rule='every request (ordinary, partial, and trace mode in the thorough tier) run on the tail-call and the state-machine build of the same definitions and compared verbatim, callbacks included (their invocations are visible through skips, errors and bumps); non-trivial = stream with >= 2 items',
